@@ -7,7 +7,7 @@ from ..core import Violation, guard
 ID = 'C01'
 RULE = ('cases: 64-byte records = raw random bytes | structured records with boundary-biased fields, each with a '
         'random bit to flip (non-interference), plus the 1024 one-hot / one-cold records (every bit position) '
-        'enumerated in every run. Oracle: independent int.from_bytes field extraction, id/qualifier algebra, '
+        'and every id of the bundled code table x 4 qualifiers as debug id, enumerated in every run. Oracle: independent int.from_bytes field extraction, id/qualifier algebra, '
         'rebuild of the first 52 bytes, single-bit-flip non-interference, totality. Non-trivial: the record is not a '
         'repetition of one byte value; distinct by record bytes.')
 ASSUMPTIONS = ['from_kd_buf is the only decoding entry point; it is called with exactly 64 bytes (the statement\'s domain)']
@@ -95,7 +95,23 @@ def one_hot_cold():
             yield {'rec': bytes([base]) * 64, 'flip': bit}
 
 
+def table_ids():
+    """records whose debug id is an id of the bundled code table (all four qualifiers; ids listed with low bits too)"""
+    from ..core import REPO_ROOT
+    by_id, _ = kmodel.code_table(REPO_ROOT)
+    k = 0
+    for ident in sorted(by_id):
+        for q in range(4):
+            k += 1
+            dbg = (ident & ~3) | q
+            yield {'rec': kmodel.record(0x1122334455667788 + k, bytes(range(32)), 0x99 + k, dbg, cpu=k % 3, unused=k % 2),
+                   'flip': 384 + (k % 32)}
+        if ident & 3:
+            yield {'rec': kmodel.record(7, bytes(32), 1, ident), 'flip': 390}
+
+
 def run(ctx):
     strat = st.fixed_dictionaries({'rec': S.record64(), 'flip': st.integers(0, 511)})
     ctx.run_enum('record', one_hot_cold(), prop_record, exhaustive_label='one-hot/one-cold records and every bit flip of 4 constant records')
+    ctx.run_enum('record', table_ids(), prop_record, exhaustive_label='every id of the bundled code table x 4 qualifiers as debug id')
     ctx.run_given('record', strat, prop_record, ctx.n(5000, 50000))
